@@ -1,6 +1,7 @@
 from collections.abc import Iterable
 from contextlib import suppress
 from dataclasses import dataclass, field, replace
+from enum import EnumMeta
 from typing import Any, get_args, get_origin
 
 from xsdata.exceptions import ParserError
@@ -425,6 +426,15 @@ class DictDecoder:
         return generic(qname=qname, value=value, type=xsi_type)
 
     @classmethod
+    def is_list_enumeration(cls, var: XmlVar) -> bool:
+        """Return whether the var is an enumeration with array member values."""
+        return any(
+            isinstance(tp, EnumMeta)
+            and any(collections.is_array(member.value) for member in tp)
+            for tp in var.types
+        )
+
+    @classmethod
     def find_var(
         cls,
         xml_vars: list[XmlVar],
@@ -446,6 +456,9 @@ class DictDecoder:
                 var_is_list = var.list_element or var.tokens
                 is_array = collections.is_array(value)
                 if value is None or is_array == var_is_list:
+                    return var
+                if is_array and cls.is_list_enumeration(var):
+                    # The member values of a xs:list enumeration are arrays
                     return var
             elif var.wrapper == key:
                 if isinstance(value, dict) and var.local_name in value:
